@@ -6,8 +6,12 @@ verus! {
 //%% include prelude/env.rs
 //%% include prelude/ddnnfptr.rs
 //%% include-assumed inc/bddptr.rs
+//%% include-assumed inc/varorder.rs
 //%% include trusted/literal.rs
 //%% include trusted/lit_iter.rs
+//%% include trusted/cnf_stub.rs
+//%% include trusted/fxhashmap.rs
+//%% include trusted/sat_stub.rs
 //%% include inc/dnnf.rs
 } // verus!
 fn main() {}
